@@ -327,7 +327,7 @@ func main() {
 		// json
 		jexit, so := run(append(append([]string{}, args...), "--format", "json", index)...)
 		jrec := blank()
-	jerr := lastErr
+		jerr := lastErr
 		if jexit == 0 {
 			var m map[string]interface{}
 			if err := json.Unmarshal(so, &m); err != nil {
